@@ -110,9 +110,14 @@ Section C14.
   Theorem C14_reset_is_fresh : forall c ops, uses_kernel (c_cls Prm c) = false ->
     fst (step c (exec c init ops) Rst) = init.
   Proof. exact (reset_is_fresh P Prm V lib_cmp lib_fit_fails lib_sort lib_stack). Qed.
-  (* FULL for MMD / streaming MMD: the same up to the attributes reset() leaves behind (_expected_k_xx; the
-     streaming X_queue), which the next successful fit / the next window_size updates overwrite before they
-     are read.  Not proved as an observational equivalence; C14_reset_unfits covers these classes. *)
+
+  (** ... and for all 19 classes it is the state of a new object in everything but the kernel term
+      (MMD._expected_k_xx of the detector, resp. of the wrapped batch MMD), which reset() leaves behind. *)
+  Theorem C14_reset_is_fresh_up_to_kernel_term : forall c ops,
+    forget_aux P (fst (step c (exec c init ops) Rst)) = init.
+  Proof. exact (reset_is_fresh_up_to_kernel_term P Prm V lib_cmp lib_fit_fails lib_sort lib_stack). Qed.
+  (* FULL for MMD / streaming MMD: state = init.  Not true of the code (the stale _expected_k_xx stays); it is
+     dead until the next successful fit overwrites it, which is not proved as an observational equivalence. *)
 
   (** Dimension mismatch at compare: EVERY class with a compare method (all 17 batch classes, CVMTest included,
       and the streaming MMD), after ANY history, for ANY number of axes: a test sample exposing .shape whose
@@ -228,6 +233,7 @@ Print Assumptions C14_needs_fit_history.
 Print Assumptions C14_rejected_fit_keeps_state.
 Print Assumptions C14_reset_unfits.
 Print Assumptions C14_reset_is_fresh.
+Print Assumptions C14_reset_is_fresh_up_to_kernel_term.
 Print Assumptions C14_dim_mismatch.
 Print Assumptions C14_univariate_rejects_multicolumn.
 Print Assumptions C14_bad_rank_rejected.
